@@ -393,6 +393,22 @@ def extra_obligations(mods, tier, seed):
     cells on the firmware mock against the host LCD's buffer at every marker (BOUNDED)"""
     from progs import devdiff
     out = devdiff.obligations("C17/diff", devdiff.lcd_scripts(), lcd=True, what="display cells equal the host LCD buffer after every command")
+    # seeded generated LCD programs (fixed seeds): random write/line/message/clear/progress sequences, literal / variable arguments,
+    # positional or keyword, under branches, loops and the main loop, on the three geometries
+    import time as _time
+    from progs import gen_lcd
+    t_gen = _time.time()
+    gen_progs = {}
+    for gs, count in ((0, 60),) if tier != "thorough" else ((0, 150), (1, 150), (2, 150), (3, 150)):
+        gen_progs.update(gen_lcd.programs(count, seed=gs))
+    gres = devdiff.run(gen_progs, lcd=True)
+    gbad = [r for r in gres if r["verdict"] not in ("same", "rejected", "python-undefined") and not r["verdict"].startswith("harness")]
+    gharness = [r for r in gres if r["verdict"].startswith("harness")]
+    out.append({"name": "C17/diff/generated-lcd-programs", "status": "discharged" if not gbad and not gharness else ("sat" if gbad else "unknown"), "backend": "bounded-differential", "bounded": True,
+                "where": f"{len(gen_progs)} generated LCD programs (fixed seeds): the display cells at every marker equal the host LCD's "
+                         f"[{sum(1 for r in gres if r['verdict'] == 'same')} same, {sum(1 for r in gres if r['verdict'] in ('rejected', 'python-undefined'))} outside the comparison]",
+                "time": round(_time.time() - t_gen, 2), "replay": {"failing": [{k: r.get(k) for k in ("name", "verdict", "first_difference", "script")} for r in gbad[:3]]},
+                "replay_confirmed": bool(gbad)})
     # host model: two LCD objects share nothing (glyph tables, buffers, backlight flags) - executed on the real class (BOUNDED)
     import sys as _sys
     import time as _time
